@@ -1,6 +1,9 @@
 import P0f.LogicOk.Prelude
 import P0f.Model.Mtu
 import P0f.Generated.Logic.MtuFromMss
+import P0f.Generated.Logic.FindMtuMatch
+import P0f.Generated.Logic.FingerprintMtu
+import P0f.LogicOk.Gates
 namespace P0f
 /-- `MTUPacketSignature.from_mss` as printed from the source: PacketError without an MSS, else MSS + 40 / 60 (C08) -/
 theorem gen_mtuFromMss (mss v : Nat) :
@@ -12,4 +15,57 @@ theorem gen_mtuFromMss (mss v : Nat) :
      · simp [h]
      · have : ¬ mss ≤ 0 := by omega
        by_cases h4 : v = 4 <;> simp [h, this, h4])
+
+/-- `find_mtu_match` as printed from the source (with `mtu_signatures_match` inlined): the first record whose MTU is exactly
+    the packet's.  A record is (its MTU, its position in the list). -/
+theorem gen_findMtuMatch (recs : List (Nat × Nat)) (mtu : Nat) :
+    Gen.findMtuMatch recs mtu = recs.find? (fun r => r.1 == mtu) := by
+  first
+  | exact rfl
+  | (unfold Gen.findMtuMatch firstHit
+     cases recs.find? (fun r => r.1 == mtu) <;> rfl)
+
+theorem find_zipIdx (l : List Nat) (m k : Nat) :
+    ((l.zipIdx k).find? (fun r => r.1 == m)).map (·.2) = (l.findIdx? (· == m)).map (· + k) := by
+  induction l generalizing k with
+  | nil => rfl
+  | cons a t ih =>
+    simp only [List.zipIdx_cons, List.find?_cons, List.findIdx?_cons]
+    by_cases h : (a == m) = true
+    · simp [h]
+    · simp only [h]
+      rw [ih (k + 1)]
+      cases t.findIdx? (· == m) with
+      | none => rfl
+      | some i => simp; omega
+
+/-- the printed search on the enumerated record list = the model's `findMtu` (index of the earliest record with that MTU) -/
+theorem source_findMtu (db : List Nat) (mtu : Nat) : (Gen.findMtuMatch db.zipIdx mtu).map (·.2) = findMtu db mtu := by
+  rw [gen_findMtuMatch]
+  have := find_zipIdx db mtu 0
+  simpa [findMtu] using this
+
+/-- `fingerprint_mtu` as printed from the source (gate, `from_packet` = the printed `from_mss` on the packet's MSS and IP version,
+    search, result) = the model's: PacketError exactly for a fragment / other flags / no MSS, else MSS + 40 / 60 and the
+    earliest record with exactly that MTU (C08) -/
+theorem gen_fingerprintMtu (db : List Nat) (p : PktL) :
+    (Gen.fingerprintMtu db.zipIdx p).map (fun r => (r.1, r.2.map (·.2))) = fingerprintMtu db p := by
+  unfold fingerprintMtu
+  first
+  | (unfold Gen.fingerprintMtu
+     simp only [gen_validMtu, gen_mtuFromMss]
+     by_cases hv : validMtu p.ip.isFragment p.tcp.type p.tcp.opts.mss = true
+     · have hm : ¬ p.tcp.opts.mss = 0 := by
+         intro h0
+         simp [validMtu, h0] at hv
+       simp only [hv, Bool.not_true, Bool.false_eq_true, if_false, hm, Option.map_some, Option.elim_some, Int.toNat_natCast, source_findMtu]
+     · simp [hv])
+  | (unfold Gen.fingerprintMtu
+     by_cases hv : validMtu p.ip.isFragment p.tcp.type p.tcp.opts.mss = true
+     · simp only [hv, Bool.not_true, Bool.false_eq_true, if_false, Option.map_some]
+       have := find_zipIdx db (p.tcp.opts.mss + mtuHdr p.ip.version) 0
+       simp only [findMtu]
+       simpa using this
+     · simp [hv])
+
 end P0f
